@@ -320,15 +320,21 @@ func solveAll(fes []*FE, outDir string, timeout, workers int, second bool) {
 		}
 	}
 	if len(retry) > 0 && len(retry) <= 8 {
-		for _, j := range retry {
-			file := filepath.Join(outDir, sanitize(j.ob.Name)+"_retry.smt2")
-			os.WriteFile(file, []byte(j.fe.emit(j.ob)), 0o644)
-			r, f2 := j.fe.decide(j.ob, file, timeout*3, 0)
-			if r.res == "unsat" {
-				j.ob.Result, j.ob.Solver, j.ob.Seconds, j.ob.File, j.ob.Detail, j.ob.Model = "unsat", r.solver+"(retry)", j.ob.Seconds+r.secs, f2, "", ""
-				os.Remove(file)
-			}
+		var rw sync.WaitGroup
+		for ri, j := range retry {
+			rw.Add(1)
+			go func(ri int, j job) {
+				defer rw.Done()
+				file := filepath.Join(outDir, fmt.Sprintf("%s_retry%d.smt2", sanitize(j.ob.Name), ri))
+				os.WriteFile(file, []byte(j.fe.emit(j.ob)), 0o644)
+				r, f2 := j.fe.decide(j.ob, file, timeout*3, 0)
+				if r.res == "unsat" {
+					j.ob.Result, j.ob.Solver, j.ob.Seconds, j.ob.File, j.ob.Detail, j.ob.Model = "unsat", r.solver+"(retry)", j.ob.Seconds+r.secs, f2, "", ""
+					os.Remove(file)
+				}
+			}(ri, j)
 		}
+		rw.Wait()
 	}
 }
 
